@@ -36,8 +36,9 @@ def expected(base, pieces, cfg):
 def work(arg):
     name, base, pieces, cfg, depth, seqs = arg[:6]
     extra = arg[6] if len(arg) > 6 else 0
+    slack = arg[7] if len(arg) > 7 else 0
     exp, n = expected(base, pieces, cfg)
-    job = "file %s\nnchunks %d\ndepth %d\nextra %d\n" % (base.hex(), n, depth, extra) + "".join("seq %s\n" % s for s in (seqs or []))
+    job = "file %s\nnchunks %d\ndepth %d\nextra %d\nslack %d\n" % (base.hex(), n, depth, extra, slack) + "".join("seq %s\n" % s for s in (seqs or []))
     cs = core.drv("chunkreq", job, timeout=3000)
     res = {"n": 0, "req": 0, "viol": [], "revisit": 0, "outcomes": set()}
     for c in cs:
@@ -78,7 +79,7 @@ def work(arg):
                                      "comp": cfg.comp, "dict": bool(cfg.dict)},
                                     "%s: sequence %s: request #%d (%s) returned %s with %d bytes; expected %d bytes %s" % (
                                         name, q["seq"], k, op, ret, len(data), el, "(content differs)" if ret == str(el) else ""),
-                                    {"base": base.hex(), "seq": q["seq"], "pieces": [x.hex() for x in pieces],
+                                    {"base": base.hex(), "seq": q["seq"], "pieces": [x.hex() for x in pieces], "slack": slack,
                                      "cfg": [cfg.comp, cfg.dict.hex(), cfg.uncomp, cfg.chash, cfg.fhash]}))
                 break
     return res
@@ -95,6 +96,8 @@ def run(ctx):
     xdepth = 3 if not ctx.deep else 4
     jobs = [(n, b, p, c, depth if not (ctx.deep and len(p) == 3) else 5, None, 0) for n, b, p, c in bs]
     jobs += [(n, b, p, c, xdepth, None, 1) for n, b, p, c in bs if len(p) == 3 or ctx.deep]
+    # the caller's buffer is larger than the chunk (7 and 4096 bytes of slack): the answer is still exactly the chunk
+    jobs += [(n, b, p, c, 2 if not ctx.deep else 3, None, 0, sl) for n, b, p, c in bs for sl in (7, 4096)]
     ctx.bounds["with_history_operations"] = {"depth": xdepth, "operations": "read 1, read 40, validate-checksums, find-valid-chunks, chunk data into a half-size buffer"}
     for r in core.pmap(work, jobs):
         ctx.states += r["n"]; ctx.evaluations += r["n"]; ctx.transitions += r["req"]; ctx.nontrivial += r["revisit"]
@@ -109,5 +112,5 @@ def replay(case, quiet=True):
     if "pieces" not in case:
         return {"violated": True, "detail": "crash case"}
     cfg = Cfg(case["cfg"][0], bytes.fromhex(case["cfg"][1]), case["cfg"][2], case["cfg"][3], case["cfg"][4])
-    r = work(("replay", base, [bytes.fromhex(x) for x in case["pieces"]], cfg, 0, [case["seq"]], 1))
+    r = work(("replay", base, [bytes.fromhex(x) for x in case["pieces"]], cfg, 0, [case["seq"]], 1, case.get("slack", 0)))
     return {"violated": bool(r["viol"]), "detail": [v[1] for v in r["viol"]]}
